@@ -38,6 +38,9 @@ def diagonalround : List Word → List Word
     [y0, y1, y2, y3, y4, y5, y6, y7, y8, y9, y10, y11, y12, y13, y14, y15]
   | _ => []
 
+/-- the diagonal round as an index pattern: group r, element c reads x[4c + (r+c) mod 4] -/
+def diagIndex : List Nat := (List.range 16).map fun p => 4 * (p % 4) + (p / 4 + p % 4) % 4
+
 def doubleround (x : List Word) : List Word := diagonalround (columnround x)
 
 def coreWords (dr : Nat) (x : List Word) : List Word :=
